@@ -433,6 +433,10 @@ def run(ctx: Context, rep) -> None:
     # nothing read from the dataset's files / the environment is memoised
     from sa.rules import shared as _shm
     _shm.check_no_memo(ctx, rep, "C04.memo")
+    from sa.rules import shared as _sh04b
+    # every metadata update is published by the atomic rename and the recorded
+    # digest is taken afterwards (same check as C06.rename)
+    _sh04b.share_rules(ctx, rep, "c06", {"C06.rename": "C04.publish"})
     # what is recorded as written can be decoded: both directions of every
     # codec pair the same library calls (same check as C01.codec)
     from sa.rules import shared as _sh04b
